@@ -423,7 +423,7 @@ def sem (convert : Bool) (p : Program) : List Int :=
 /-- well-formed command lists, given the current block size and channel -/
 def WFcmds (h : Hdr) : Nat → Nat → List Cmd → Prop
   | _, _, [] => True
-  | bs, chan, .diff k _ res :: cs => k ≤ 3 ∧ res.length = bs ∧ WFcmds h bs ((chan + 1) % h.nchan) cs
+  | bs, chan, .diff _ _ res :: cs => res.length = bs ∧ WFcmds h bs ((chan + 1) % h.nchan) cs
   | bs, chan, .qlpc _ coefs res :: cs =>
     coefs.length ≤ h.maxnlpc ∧ res.length = bs ∧ h.nwrap ≤ bs ∧ WFcmds h bs ((chan + 1) % h.nchan) cs
   | bs, chan, .zero :: cs => WFcmds h bs ((chan + 1) % h.nchan) cs
